@@ -1,3 +1,524 @@
 package main
 
-func init() {}
+// C19: Context operations round to the context and latch the first NaN.
+// Explicit-state BFS over histories of Context calls on the real Context,
+// against the latch automaton {armed, latched(e)} × reference rounding.
+
+import (
+	"fmt"
+	"math/big"
+	"strings"
+	"sync"
+
+	"github.com/db47h/decimal"
+	dctx "github.com/db47h/decimal/context"
+)
+
+type cstate struct {
+	c    dctx.Context
+	z    [2]*Dec
+	vals []*Dec // constant operands (never receivers)
+}
+
+// model side
+type cmodel struct {
+	prec    uint32
+	mode    uint8
+	latched bool
+}
+
+type cop struct {
+	name string
+	// run executes on the real objects, returns (returned pointer == receiver?, Err() result if the op is Err, panic value)
+	recv   int // receiver variable (-1 none)
+	kind   int
+	op     int   // arithmetic op id
+	srcs   []int // operand indices: >= 0 constant menu index, -1 = the other variable
+	arg    uint  // SetPrec / SetMode argument
+	nilArg bool
+}
+
+const (
+	ckArith = iota
+	ckErr
+	ckSetPrec
+	ckSetMode
+	ckNew
+)
+
+var ctxConsts []*Opnd
+
+func ctxConstants() []*Opnd {
+	if ctxConsts == nil {
+		long := mkCoef(false, mustInt("1234567890123456789012345678901234567891"), -20, 45, ToZero)
+		ctxConsts = []*Opnd{
+			mkSpecial(fInf, true, 0, 0),   // 0 -Inf
+			mkInt64(-15, -1, 7, 3),        // 1 -1.5
+			mkSpecial(fZero, true, 0, 0),  // 2 -0
+			mkSpecial(fZero, false, 3, 1), // 3 +0
+			mkInt64(225, -2, 9, 5),        // 4 2.25
+			mkInt64(123456, -5, 6, 2),     // 5 1.23456
+			mkInt64(1, -3, 34, 0),         // 6 1e-3
+			mkSpecial(fInf, false, 5, 4),  // 7 +Inf
+			long,                          // 8 40-digit value
+		}
+	}
+	return ctxConsts
+}
+
+func ctxOps() []cop {
+	var ops []cop
+	pairs := [][2]int{{4, 5}, {7, 0}, {3, 7}, {3, 2}, {7, 7}, {-1, 5}, {8, 6}, {1, -1}, {0, 0}}
+	for _, op := range []int{opAdd, opSub, opMul, opQuo} {
+		for r := 0; r < 2; r++ {
+			for _, p := range pairs {
+				ops = append(ops, cop{name: fmt.Sprintf("z%d=%s(%s,%s)", r, opNames[op], cname(p[0]), cname(p[1])), recv: r, kind: ckArith, op: op, srcs: []int{p[0], p[1]}})
+			}
+		}
+	}
+	for r := 0; r < 2; r++ {
+		for _, t := range [][3]int{{4, 5, 8}, {3, 7, 5}, {7, 4, 0}, {-1, 5, 6}, {5, 5, -1}} {
+			ops = append(ops, cop{name: fmt.Sprintf("z%d=FMA(%s,%s,%s)", r, cname(t[0]), cname(t[1]), cname(t[2])), recv: r, kind: ckArith, op: opFMA, srcs: []int{t[0], t[1], t[2]}})
+		}
+		for _, x := range []int{1, 4, 8, 7, 2, -1} {
+			ops = append(ops, cop{name: fmt.Sprintf("z%d=Sqrt(%s)", r, cname(x)), recv: r, kind: ckArith, op: opSqrt, srcs: []int{x}})
+		}
+		for _, op := range []int{opNeg, opAbs, opSet} {
+			for _, x := range []int{1, 8, 0, -1} {
+				ops = append(ops, cop{name: fmt.Sprintf("z%d=%s(%s)", r, opNames[op], cname(x)), recv: r, kind: ckArith, op: op, srcs: []int{x}})
+			}
+		}
+		ops = append(ops, cop{name: fmt.Sprintf("z%d=Add(nil,1.23456)", r), recv: r, kind: ckArith, op: opAdd, srcs: []int{5, 5}, nilArg: true})
+	}
+	ops = append(ops, cop{name: "Err()", recv: -1, kind: ckErr})
+	for _, p := range []uint{0, 2, 5} {
+		ops = append(ops, cop{name: fmt.Sprintf("SetPrec(%d)", p), recv: -1, kind: ckSetPrec, arg: p})
+	}
+	for _, m := range []uint{0, 2, 4} {
+		ops = append(ops, cop{name: fmt.Sprintf("SetMode(%d)", m), recv: -1, kind: ckSetMode, arg: m})
+	}
+	ops = append(ops, cop{name: "New*", recv: -1, kind: ckNew})
+	return ops
+}
+
+func cname(i int) string {
+	if i < 0 {
+		return "other"
+	}
+	return []string{"-Inf", "-1.5", "-0", "+0", "2.25", "1.23456", "1e-3", "+Inf", "long40"}[i]
+}
+
+func newCState() *cstate {
+	s := &cstate{c: dctx.New(3, decimal.ToNearestEven)}
+	s.z[0] = mkInt64(7, 0, 20, ToPositiveInf).Build()
+	s.z[1] = buildPre(preLonger, 40, ToZero)
+	for _, o := range ctxConstants() {
+		s.vals = append(s.vals, o.Build())
+	}
+	return s
+}
+
+func newCModel() cmodel { return cmodel{prec: 3, mode: ToNearestEven} }
+
+// cresult of one real step
+type cresult struct {
+	pv       interface{}
+	retIsZ   bool
+	errRet   error
+	newObs   []Obs // for ckNew
+	newFails string
+}
+
+func (s *cstate) operand(i, recv int) *Dec {
+	if i < 0 {
+		return s.z[1-recv]
+	}
+	return s.vals[i]
+}
+
+func (s *cstate) step(o *cop) (res cresult) {
+	res.pv, _ = protect(func() {
+		switch o.kind {
+		case ckErr:
+			res.errRet = s.c.Err()
+		case ckSetPrec:
+			if s.c.SetPrec(o.arg) != &s.c {
+				res.newFails = "SetPrec did not return the context"
+			}
+		case ckSetMode:
+			s.c.SetMode(decimal.RoundingMode(o.arg))
+		case ckNew:
+			res.newObs = nil
+			add := func(d *Dec) {
+				if d == nil {
+					res.newFails += "nil result; "
+					return
+				}
+				res.newObs = append(res.newObs, Observe(d))
+			}
+			add(s.c.New())
+			add(s.c.NewInt64(-12345))
+			add(s.c.NewUint64(99999))
+			add(s.c.NewInt(new(big.Int).Lsh(big1, 70)))
+			add(s.c.NewFloat64(0.1))
+			add(s.c.NewRat(big.NewRat(2, 3)))
+			add(s.c.NewFloat(big.NewFloat(1.5)))
+			d, ok := s.c.NewString("1.23456789")
+			if !ok {
+				res.newFails += "NewString failed; "
+			}
+			add(d)
+			d, _, err := s.c.ParseDecimal("-9.87654321e3", 0)
+			if err != nil {
+				res.newFails += "ParseDecimal failed; "
+			}
+			add(d)
+		case ckArith:
+			z := s.z[o.recv]
+			var args []*Dec
+			for _, i := range o.srcs {
+				args = append(args, s.operand(i, o.recv))
+			}
+			if o.nilArg {
+				args[0] = nil
+			}
+			var r *Dec
+			switch o.op {
+			case opAdd:
+				r = s.c.Add(z, args[0], args[1])
+			case opSub:
+				r = s.c.Sub(z, args[0], args[1])
+			case opMul:
+				r = s.c.Mul(z, args[0], args[1])
+			case opQuo:
+				r = s.c.Quo(z, args[0], args[1])
+			case opFMA:
+				r = s.c.FMA(z, args[0], args[1], args[2])
+			case opSqrt:
+				r = s.c.Sqrt(z, args[0])
+			case opNeg:
+				r = s.c.Neg(z, args[0])
+			case opAbs:
+				r = s.c.Abs(z, args[0])
+			case opSet:
+				r = s.c.Set(z, args[0])
+			}
+			res.retIsZ = r == z
+		}
+	})
+	return
+}
+
+func buildCState(ops []cop, path []int32) (*cstate, cmodel, bool) {
+	s := newCState()
+	m := newCModel()
+	for _, oi := range path {
+		o := &ops[oi]
+		before := [2]Obs{Observe(s.z[0]), Observe(s.z[1])}
+		res := s.step(o)
+		m = m.next(o, before, res)
+	}
+	return s, m, true
+}
+
+// next advances the model by what the *specification* says (independent of the implementation's result,
+// except for the values of z which are read back from the real objects by the caller).
+func (m cmodel) next(o *cop, before [2]Obs, res cresult) cmodel {
+	switch o.kind {
+	case ckErr:
+		m.latched = false
+	case ckSetPrec:
+		m.prec = uint32(o.arg)
+		if m.prec == 0 {
+			m.prec = 34
+		}
+	case ckSetMode:
+		m.mode = uint8(o.arg)
+	case ckArith:
+		if !m.latched && !o.nilArg {
+			vals := make([]Val, len(o.srcs))
+			for i, si := range o.srcs {
+				if si < 0 {
+					vals[i] = before[1-o.recv].Val()
+				} else {
+					vals[i] = ctxConstants()[si].V
+				}
+			}
+			if opSpecs[o.op].Model(vals, m.prec, m.mode).NaN {
+				m.latched = true
+			}
+		}
+	}
+	return m
+}
+
+func ckey(s *cstate, m cmodel) string {
+	return fmt.Sprintf("%d/%d/%v/%d/%d|%s|%s", m.prec, m.mode, m.latched, s.c.Prec(), s.c.Mode(), stateKey([]*Dec{s.z[0]}), stateKey([]*Dec{s.z[1]}))
+}
+
+type ctxSpace struct {
+	ops    []cop
+	levels [][][]int32
+}
+
+var ctxSpaceOnce sync.Once
+var ctxSp *ctxSpace
+var ctxMaxLevel = 3
+
+func getCtxSpace() *ctxSpace {
+	ctxSpaceOnce.Do(func() {
+		sp := &ctxSpace{ops: ctxOps()}
+		seen := map[string]bool{}
+		s, m, _ := buildCState(sp.ops, nil)
+		seen[ckey(s, m)] = true
+		sp.levels = [][][]int32{{nil}}
+		for L := 1; L <= ctxMaxLevel; L++ {
+			var next [][]int32
+			for _, p := range sp.levels[L-1] {
+				for oi := range sp.ops {
+					np := append(append([]int32(nil), p...), int32(oi))
+					s, m, _ := buildCState(sp.ops, np)
+					k := ckey(s, m)
+					if !seen[k] {
+						seen[k] = true
+						next = append(next, np)
+					}
+				}
+			}
+			sp.levels = append(sp.levels, next)
+		}
+		ctxSp = sp
+	})
+	return ctxSp
+}
+
+func cpath(ops []cop, p []int32) string {
+	var parts []string
+	for _, oi := range p {
+		parts = append(parts, ops[oi].name)
+	}
+	return strings.Join(parts, "; ")
+}
+
+func ctxTransition(c *Ctx, sp *ctxSpace, path []int32, oi int) {
+	if c.Skip() {
+		return
+	}
+	o := &sp.ops[oi]
+	s, m, _ := buildCState(sp.ops, path)
+	before := [2]Obs{Observe(s.z[0]), Observe(s.z[1])}
+	constBefore := make([]Obs, len(s.vals))
+	for i, v := range s.vals {
+		constBefore[i] = Observe(v)
+	}
+	res := s.step(o)
+	after := [2]Obs{Observe(s.z[0]), Observe(s.z[1])}
+	key := func() string { return cpath(sp.ops, path) + " => " + o.name }
+	c.Outcome(fnvStr(0, ckey(s, m)))
+	c.NonTrivial()
+	fail := func(msg string) { c.Fail(key(), msg) }
+	// constants are never modified
+	for i, v := range s.vals {
+		if !sameValueAttrs(constBefore[i], Observe(v)) {
+			fail(fmt.Sprintf("operand constant %s modified", cname(i)))
+			return
+		}
+	}
+	if uint32(s.c.Prec()) != m.next(o, before, res).prec && o.kind == ckSetPrec {
+		fail(fmt.Sprintf("context precision %d after %s", s.c.Prec(), o.name))
+		return
+	}
+	switch o.kind {
+	case ckErr:
+		if res.pv != nil {
+			fail(fmt.Sprintf("Err() panicked: %v", res.pv))
+			return
+		}
+		if m.latched {
+			if _, ok := res.errRet.(decimal.ErrNaN); !ok {
+				fail(fmt.Sprintf("Err() = %v (%T), want the recorded ErrNaN", res.errRet, res.errRet))
+				return
+			}
+			if again := s.c.Err(); again != nil {
+				fail(fmt.Sprintf("second Err() = %v, want nil (the error is returned exactly once)", again))
+			}
+		} else if res.errRet != nil {
+			fail(fmt.Sprintf("Err() = %v on an armed context, want nil", res.errRet))
+		}
+	case ckSetPrec, ckSetMode:
+		if res.pv != nil || res.newFails != "" {
+			fail(fmt.Sprintf("panic %v %s", res.pv, res.newFails))
+		}
+		mm := m.next(o, before, res)
+		if uint32(s.c.Prec()) != mm.prec || uint8(s.c.Mode()) != mm.mode {
+			fail(fmt.Sprintf("context attributes (%d,%d), want (%d,%d)", s.c.Prec(), s.c.Mode(), mm.prec, mm.mode))
+		}
+		if !(sameValueAttrs(after[0], before[0]) && sameValueAttrs(after[1], before[1])) {
+			fail("a context attribute setter modified a Decimal")
+		}
+	case ckNew:
+		if res.pv != nil || res.newFails != "" {
+			fail(fmt.Sprintf("New*: panic %v %s", res.pv, res.newFails))
+			return
+		}
+		exact := []Val{
+			{Form: fZero}, valOfInt(big.NewInt(-12345)), valOfInt(big.NewInt(99999)), valOfInt(new(big.Int).Lsh(big1, 70)),
+			exactOfFloat(0.1), {}, exactOfFloat(1.5), {Form: fFinite, Coef: big.NewInt(123456789), E10: -8}, {Form: fFinite, Neg: true, Coef: big.NewInt(987654321), E10: -5},
+		}
+		for i, ob := range res.newObs {
+			if ob.Prec != m.prec || ob.Mode != m.mode {
+				fail(fmt.Sprintf("New* result #%d has precision/mode (%d,%d), context has (%d,%d)", i, ob.Prec, ob.Mode, m.prec, m.mode))
+				return
+			}
+			if msg := Canonical(ob); msg != "" {
+				fail("New* result malformed: " + msg)
+				return
+			}
+			var exp RRes
+			switch i {
+			case 5:
+				exp = PrepRat(big.NewInt(2), big.NewInt(3), 0, m.prec).Apply(false, m.mode)
+			case 4:
+				// NewFloat64 is only required to be within one ulp (C15)
+				continue
+			default:
+				exp = RoundVal(exact[i], m.prec, m.mode)
+			}
+			if !matchValue(ob, exp) {
+				fail(fmt.Sprintf("New* result #%d: %s", i, cmpValue(ob, exp)))
+				return
+			}
+		}
+	case ckArith:
+		z := o.recv
+		other := 1 - z
+		if !sameValueAttrs(after[other], before[other]) {
+			fail(fmt.Sprintf("the variable that is not the receiver changed: %s -> %s", before[other], after[other]))
+			return
+		}
+		if o.nilArg {
+			if m.latched {
+				if res.pv != nil {
+					fail(fmt.Sprintf("latched context must not evaluate the operation, but it panicked: %v", res.pv))
+				}
+				return
+			}
+			if res.pv == nil {
+				fail("a nil operand must cause a run-time panic that reaches the caller; it was swallowed")
+				return
+			}
+			if _, isNaN := res.pv.(decimal.ErrNaN); isNaN {
+				fail("nil operand reported as ErrNaN")
+				return
+			}
+			// and it must not have latched anything
+			if e := s.c.Err(); e != nil {
+				fail(fmt.Sprintf("a non-ErrNaN panic was recorded by the context: Err() = %v", e))
+			}
+			return
+		}
+		if res.pv != nil {
+			fail(fmt.Sprintf("Context operation panicked: %v", res.pv))
+			return
+		}
+		if !res.retIsZ {
+			fail("the operation did not return its receiver")
+			return
+		}
+		if m.latched {
+			if !sameValueAttrs(after[z], before[z]) || after[z].Len != before[z].Len {
+				fail(fmt.Sprintf("latched context modified the receiver: %s -> %s", before[z], after[z]))
+			}
+			return
+		}
+		vals := make([]Val, len(o.srcs))
+		for i, si := range o.srcs {
+			if si < 0 {
+				vals[i] = before[other].Val()
+			} else {
+				vals[i] = ctxConstants()[si].V
+			}
+		}
+		exp := opSpecs[o.op].Model(vals, m.prec, m.mode)
+		if exp.NaN {
+			// must have latched: Err() returns an ErrNaN (checked on a copy of the history to keep this state intact)
+			e := s.c.Err()
+			if _, ok := e.(decimal.ErrNaN); !ok {
+				fail(fmt.Sprintf("NaN-producing operation: Err() = %v (%T), want ErrNaN", e, e))
+			}
+			if msg := Canonical(after[z]); msg != "" {
+				fail("receiver malformed after a latched NaN: " + msg)
+			}
+			return
+		}
+		if e := s.c.Err(); e != nil {
+			fail(fmt.Sprintf("valid operation recorded an error: %v", e))
+			return
+		}
+		ob := after[z]
+		if ob.Prec != m.prec || ob.Mode != m.mode {
+			fail(fmt.Sprintf("result has precision/mode (%d,%s), the context has (%d,%s)", ob.Prec, modeName(ob.Mode), m.prec, modeName(m.mode)))
+			return
+		}
+		if msg := Canonical(ob); msg != "" {
+			fail("result malformed: " + msg)
+			return
+		}
+		if !matchValue(ob, exp) {
+			if o.op == opFMA {
+				ops3 := []*Opnd{{V: vals[0]}, {V: vals[1]}, {V: vals[2]}}
+				_ = ops3
+			}
+			fail(cmpValue(ob, exp))
+			return
+		}
+	}
+	if c.WantSample() {
+		c.Sample(key())
+	}
+}
+
+func ctxLayers(tier string) []Layer {
+	if tier == "thorough" {
+		ctxMaxLevel = 4
+	} else {
+		ctxMaxLevel = 3
+	}
+	sp := getCtxSpace()
+	var layers []Layer
+	const chunk = 8
+	for L := 0; L <= ctxMaxLevel; L++ {
+		L := L
+		n := len(sp.levels[L])
+		layers = append(layers, Layer{
+			Name:   fmt.Sprintf("E2ctx-depth%d", L+1),
+			Units:  (n + chunk - 1) / chunk,
+			Bounds: fmt.Sprintf("every one of %d Context calls (Add/Sub/Mul/Quo/FMA/Sqrt/Neg/Abs/Set on 2 receivers with valid, NaN-producing and nil operands; Err; SetPrec{0,2,5}; SetMode{0,2,4}; New/NewInt/NewInt64/NewUint64/NewFloat/NewFloat64/NewRat/NewString/ParseDecimal) applied in each of the %d distinct states first reached by %d call(s); state = (context precision, mode, latch, both variables)", len(sp.ops), n, L),
+			Run: func(c *Ctx, u int) {
+				sp := getCtxSpace()
+				for i := u * chunk; i < (u+1)*chunk && i < len(sp.levels[L]); i++ {
+					for oi := range sp.ops {
+						ctxTransition(c, sp, sp.levels[L][i], oi)
+					}
+					if c.Done() {
+						return
+					}
+				}
+			},
+		})
+	}
+	return layers
+}
+
+func init() {
+	register(&Property{
+		ID: "C19", Level: "model_checking",
+		Rule: "states = distinct (context, variables) states reached by Context call histories; every transition executes the real Context method and is compared with the latch automaton {armed, latched} × reference rounding; all transitions are non-trivial",
+		Assumptions: []string{
+			"receivers are distinct from operands (as the property requires)",
+			"history depth 4 (quick) / 5 (thorough) over 128 instantiated calls",
+			"NewFloat64's value is C15's subject (<= 1 ulp) and only its precision/mode are judged here",
+		},
+		Layers: ctxLayers,
+	})
+}
